@@ -170,12 +170,11 @@ theorem C13_qualifier (st : St) (part : Name) :
 /-- **An EQU constant never changes within a pass**, for all statement sequences (SECTION, ENDSECTION, EQU, SET,
 labels, references, PUBLIC/GLOBAL/FORWARD, PUSHV in any order and nesting) that contain no POPV: once node `k` is a
 defined, non-changeable symbol of value `v` it is so after any run.  (POPV is excluded because the pinned
-`PopSymbol` overwrites constants: `C13_finding_popv_const`.) -/
+`PopSymbol` used to overwrite constants - finding `popv-overwrites-equ-constant`, repaired: POPV is now covered as well, see `C13_popv_const_refused`.) -/
 theorem C13_const_immutable (st : St) (ops : List Op) (k : Key) (v : Int)
-    (hc : tfind st.tab k = some { val := v, defined := true, changeable := false })
-    (hp : ∀ op ∈ ops, op.isPopv = false) :
+    (hc : tfind st.tab k = some { val := v, defined := true, changeable := false }) :
     tfind (run st ops).tab k = some { val := v, defined := true, changeable := false } :=
-  run_constPres st ops hp k v hc
+  run_constPres_all st ops k v hc
 
 /-- **Redefinition of a constant is an error** (EQU again: "symbol double defined"; SET on it: "constant redefined as
 variable"), and the table is left untouched. -/
@@ -233,10 +232,11 @@ theorem C13_pushpop_lifo (k : Name) (vs : List Int) :
 
 /-- **POPV after PUSHV restores the value** (whatever SET did to the symbol in between): if `sym` resolves to node
 `key` at the PUSHV (value `e.val`) and to the same node at the POPV, and the stack `stk` is as the PUSHV left it, the
-node holds `e.val` again and the stack is what it was before the PUSHV. -/
+node holds `e.val` again and the stack is what it was before the PUSHV.  (`hch`: the symbol is a variable, or - a constant -
+it still has the value it was pushed with, which `C13_const_immutable` guarantees for every constant.) -/
 theorem C13_pushv_popv_restores (st st2 : St) (sym stk : Name) (key : Key) (e e2 : Entry)
     (hf : findNode st sym = (st, some (key, e))) (hf2 : findNode st2 sym = (st2, some (key, e2)))
-    (hs : st2.stacks = (pushSymbol st sym stk).stacks) (hcs : st2.cs = st.cs) :
+    (hs : st2.stacks = (pushSymbol st sym stk).stacks) (hcs : st2.cs = st.cs) (hch : e2.changeable = true ∨ e2.val = e.val) :
     tfind (popSymbol st2 sym stk).tab key = some { e2 with val := e.val } ∧
       getStack (popSymbol st2 sym stk).stacks (stackNameOf st stk) = getStack st.stacks (stackNameOf st stk) := by
   have hk : stackNameOf st2 stk = stackNameOf st stk := by simp [stackNameOf, hcs]
@@ -247,6 +247,12 @@ theorem C13_pushv_popv_restores (st st2 : St) (sym stk : Name) (key : Key) (e e2
   unfold popSymbol
   rw [hf2]
   simp only [hget]
+  have hno : ¬ (e2.changeable = false ∧ e2.val ≠ e.val) := by
+    rintro ⟨h1, h2⟩
+    rcases hch with h | h
+    · rw [h] at h1; exact Bool.noConfusion h1
+    · exact h2 h
+  rw [if_neg hno]
   constructor
   · exact tfind_tset_same _ _ _
   · rw [hk]; exact getStack_setStack_same _ _ _
@@ -333,11 +339,22 @@ def findingSt : St :=
             (([86], -1), { val := 2, defined := true, changeable := true })],
     stacks := [([83], [2])], passNo := 1 }
 
-/-- `K equ 1`, value 2 on stack `S`, `popv S,k` (names are stored folded): the constant is now 2 – the frame theorem `C13_const_immutable`
-cannot be extended to POPV on the pinned tree. -/
-theorem C13_finding_popv_const :
+/-- **POPV of another value onto a constant is refused** (repaired finding `popv-overwrites-equ-constant`): the constant keeps its value, the
+statement reports "constants cannot be redefined as variables", and the stack keeps the value that was not taken. -/
+theorem C13_popv_const_refused :
     tfind findingSt.tab ([75], -1) = some { val := 1, defined := true, changeable := false } ∧
-      tfind (run findingSt [.popv [83] [[107]]]).tab ([75], -1) = some { val := 2, defined := true, changeable := false } := by
+      tfind (run findingSt [.popv [83] [[107]]]).tab ([75], -1) = some { val := 1, defined := true, changeable := false } ∧
+      (run findingSt [.popv [83] [[107]]]).errs.map (·.2) = [errConstantRedefinedAsVariable] ∧
+      (run findingSt [.popv [83] [[107]]]).stacks = findingSt.stacks := by
+  decide
+
+/-- ... while the PUSHV/POPV pair around a constant (the saved value is the one it has) goes through without a message and
+pops the stack. -/
+theorem C13_popv_const_same_value :
+    (run { findingSt with stacks := [([83], [1])] } [.popv [83] [[107]]]).errs = [] ∧
+      tfind (run { findingSt with stacks := [([83], [1])] } [.popv [83] [[107]]]).tab ([75], -1) =
+        some { val := 1, defined := true, changeable := false } ∧
+      getStack (run { findingSt with stacks := [([83], [1])] } [.popv [83] [[107]]]).stacks [83] = [] := by
   decide
 
 /-! ### non-vacuity -/
